@@ -2316,9 +2316,8 @@ func WriteBinaryBlocks(mainLabel uint64, lbls Set, op *OutputOp, bounds dvid.Bou
 				inBlock = true
 			} else {
 				hasBackground = true // true if any non-targeted label exists
-				if len(labelIndices) == len(lbls) {
-					break
-				}
+				// can't break once all targeted labels were seen because a label can have
+				// multiple entries in a block's label list (see WriteRLEs).
 			}
 		}
 		if inBlock {
